@@ -1,5 +1,6 @@
 import ThunderProofs.Reactive.Release
 import ThunderProofs.Properties.C04
+import ThunderProofs.Reactive.ReleaseDecision
 /-!
 # C08 — Reactive cache never serves superseded values and releases every resource
 
@@ -96,6 +97,22 @@ theorem quiescent_edges_live (ls : List Release.Label) (s : Release.St) (h : Rel
   rcases (Release.inv_reachable ls s h).edgeLive n m hm with h1 | h1
   · exact h1
   · rw [q2] at h1; cases h1
+
+/-- **The release of a node is only ever decided when nothing depends on it**: whichever step commits to
+releasing a node - a call by the rerunner (superseded or stopped or failed computation), a registration on an
+already released dependant, the last dependant going away - the node has no dependant at that moment. A
+dependant that registers between the decision and the release itself is invalidated by the release (C04's
+invariant: a released node is invalidated), which is the one case in which a cleanup runs before its latest
+dependant is superseded. -/
+theorem cleanup_decided_only_when_unused (s s' : Release.St) (l : Release.Label) (h : Release.step s l = some s') (n : Nat)
+    (hn : n ∈ s'.pendRel) (ho : n ∉ s.pendRel) : (Release.getNode s' n).out = [] :=
+  Release.release_decided_only_when_unused s s' l h n hn ho
+
+/-- the model of the rerunner refuses to release a node that something depends on (a cached computation a
+current run uses, say): such a call by the implementation is not a step of the model -/
+theorem rerunner_never_releases_used_node (s : Release.St) (n : Nat) (h : (Release.getNode s n).out ≠ []) :
+    Release.step s (.callRelease n) = none := by
+  simp [Release.step, h]
 
 /-! ### non-vacuity: a resource shared by two computations is released when the second one goes -/
 def exTrace : List Release.Label :=
